@@ -31,6 +31,17 @@ instance : Truthy Int := ⟨fun n => !(n == 0)⟩
 @[simp] theorem truthy_list {α} (l : List α) : truthy l = !l.isEmpty := rfl
 @[simp] theorem truthy_nat (n : Nat) : truthy n = !(n == 0) := rfl
 
+/-- python `fmt % (a, b, …)` restricted to `%s` / `%d` place-holders over arguments that are already strings:
+    the i-th place-holder is replaced by the i-th argument; `%%` is a literal percent sign -/
+def fmtAux : List Char → List String → List Char
+  | [], _ => []
+  | '%' :: '%' :: cs, args => '%' :: fmtAux cs args
+  | '%' :: 's' :: cs, a :: args => a.toList ++ fmtAux cs args
+  | '%' :: 'd' :: cs, a :: args => a.toList ++ fmtAux cs args
+  | c :: cs, args => c :: fmtAux cs args
+
+def fmt (f : String) (args : List String) : String := String.ofList (fmtAux f.toList args)
+
 /-- python `x in xs` for lists -/
 def isIn {α} [BEq α] (x : α) (xs : List α) : Bool := xs.contains x
 
